@@ -141,7 +141,7 @@ static std::string handle(const Case& c) {
         if (comp == "sum_tr_mul") return run_style(style, view::sum(view::transpose(view::multiply(a, b)), 1), bsz, tids, bids);
         // outside wf (C14's class): non-leaf operand at position 1
         if (comp == "mm_tr_r")    return run_style(style, view::matmul(a, view::transpose(b)), bsz, tids, bids);
-        // a binary ufunc over a non-leaf operand (C14's second finding: dangling sub-operand in the extraction)
+        // a broadcasting binary ufunc over a non-leaf operand at position 0 (extraction skips the broadcast_to wrapper)
         if (comp == "sub_tr_l")   return run_style(style, view::subtract(view::transpose(a), b), bsz, tids, bids);
         return "unsupported";
     }
